@@ -444,7 +444,7 @@ def _untry(e):
 def _follow(ld, e, depth=0):
     e = _untry(e)
     while depth < 12 and isinstance(e, dict):
-        if e.get("k") == "mcall" and e["m"] in ("clone", "to_vec", "to_owned", "iter", "cloned", "collect", "into_iter", "as_slice", "as_ref") and not e["args"]:
+        if e.get("k") == "mcall" and e["m"] in ("clone", "to_vec", "to_owned", "iter", "cloned", "copied", "collect", "into_iter", "as_slice", "as_ref", "enumerate", "by_ref", "peekable") and not e["args"]:
             e = _untry(e["recv"])
         elif e.get("k") == "path" and hir.res_local(e) is not None:
             d = ld.get(hir.res_local(e))
@@ -479,8 +479,8 @@ def rule_l6(F):
         if n.get("k") == "mcall" and n["m"] == "push" and n.get("args"):
             pass
     for n in hir.walk(ufb.hir["value"]):
-        if n.get("k") in ("for", "loop", "match") and str(n.get("src", "")).startswith("ForLoop"):
-            it = _follow(uld, n["e"]["args"][0]) if hir.strip(n["e"]).get("k") == "call" and hir.strip(n["e"]).get("args") else None
+        if n.get("k") in ("for", "loop", "match") and str(n.get("src", "")).startswith("ForLoop") and isinstance(n.get("e"), dict):
+            it = _follow(uld, hir.strip(n["e"])["args"][0]) if hir.strip(n["e"]).get("k") == "call" and hir.strip(n["e"]).get("args") else None
             if it is not None and it.get("k") == "path" and hir.res_local(it) in params:
                 order_param = params.index(hir.res_local(it)) - 1  # position among the non-self parameters
                 break
